@@ -169,7 +169,7 @@ func synAvoidFor(c *pbt.Collector) map[string]bool {
 
 func TestC10(t *testing.T) {
 	c := pbt.New("C10", "exploration",
-		"texts are drawn from the grammar (every alternative/optional; semantic validity not required) or are random spellings of well-formed programs, with // comments and random whitespace; each is paired with a re-layout (same tokens, same comment attachment, different blanks/line breaks). Non-trivial = the text contains a comment, a key list of more than 5 keys, or a nested inline object; distinct = hash of (text, relayout).",
+		"texts are drawn from the grammar (every alternative/optional; semantic validity not required) or are random spellings of well-formed programs, with // comments and random whitespace; each is paired with a re-layout (same tokens, same comment attachment, different blanks/line breaks); one case in sixteen repeats both laws through `format -f` on files. Non-trivial = the text contains a comment, a key list of more than 5 keys, or a nested inline object; distinct = hash of (text, relayout).",
 		"the harness tokenizer/renderer follow PacketDsl.g4's lexer rules", "formatter crashes are reported under C11, not here")
 	if p := pbt.ReplayPath(); p != "" {
 		c.Direct(t, func() {
@@ -577,7 +577,7 @@ func invalidate(rt *rapid.T, toks []dsl.Tok, text string) (string, string) {
 
 func TestC09(t *testing.T) {
 	c := pbt.New("C09", "exploration",
-		"valid texts: grammar-derived (every alternative/optional element) or random spellings of well-formed programs, with // comments at every token boundary and random whitespace; oracle: format succeeds, re-parses, same token sequence modulo optional ';' and pair ',' (harness tokenizer), same comment sequence, same compiled outputs/diagnostics. Invalid texts: valid ones broken by construction (trailing garbage, dropped brace, unterminated literal, stray token); oracle: error returned and text unchanged. Non-trivial = at least 2 declarations and at least one comment, doc string or attribute (valid), or any invalid text; distinct = hash of text.",
+		"valid texts: grammar-derived (every alternative/optional element) or random spellings of well-formed programs, with // comments at every token boundary and random whitespace; oracle: format succeeds, re-parses, same token sequence modulo optional ';' and pair ',' (harness tokenizer), same comment sequence, same compiled outputs/diagnostics; a twelfth of the cases each also through `format -f` (file == result) and `format -d` (stdout == result) of the built CLI. Invalid texts: valid ones broken by construction (trailing garbage, dropped brace, unterminated literal, stray token); oracle: error returned and text unchanged. Non-trivial = at least 2 declarations and at least one comment, doc string or attribute (valid), or any invalid text; distinct = hash of text.",
 		"the harness tokenizer follows PacketDsl.g4's lexer rules", "formatter crashes are reported under C11")
 	run := func(tb pbt.TB, k c09Case) { c.Eval(); c.Report(tb, k, evalC09(k)) }
 	if p := pbt.ReplayPath(); p != "" {
